@@ -122,8 +122,9 @@ class Ctx:
                 raise Infeasible()
         if self.pos < len(self.trace) and isinstance(self.trace[self.pos], str):
             b = self.trace[self.pos] == 'T!'
+        else:
+            self.decisions += 1          # a genuine two-way fork (forced choices are not decisions)
         self.pos += 1
-        self.decisions += 1
         self.pc.append(cond if b else z3.Not(cond))
         self.solver.add(self.pc[-1])
         return b
@@ -926,6 +927,12 @@ class Interp:
             if T is ast.SetComp:
                 return VSet(out)
             return VList(out) if T is ast.ListComp else GenV(iter(out))
+        if T is ast.DictComp and len(e.generators) == 1 and not e.generators[0].ifs:
+            src = self.eval(e.generators[0].iter, env, module)
+            if hasattr(src, 'm_dictcomp'):
+                return src.m_dictcomp(self, e, env, module)
+            if isinstance(src, Model):
+                raise Unsupported('dict comprehension over ' + type(src).__name__)
         if T is ast.DictComp:
             d = VDict()
             self.comprehension(e.generators, 0, env, module,
@@ -957,8 +964,13 @@ class Interp:
         return d.m_map_lookup(self, src)
 
     def _special_listcomp(self, e, env, module):
-        """[x for x in L if x != c] over an abstract label list (filter view)"""
+        """[x for x in L if x != c] over an abstract label list (filter view); [k for k, v in M.items() if c(v)]"""
         g = e.generators[0]
+        if isinstance(g.target, ast.Tuple) and isinstance(g.iter, ast.Call) and isinstance(g.iter.func, ast.Attribute) and g.iter.func.attr == 'items':
+            m = self.eval(g.iter.func.value, env, module)
+            if hasattr(m, 'm_listcomp_items'):
+                return m.m_listcomp_items(self, e, env, module)
+            return NOTFOUND
         if not (isinstance(g.target, ast.Name) and isinstance(e.elt, ast.Name) and e.elt.id == g.target.id and len(g.ifs) == 1):
             return NOTFOUND
         c = g.ifs[0]
@@ -1089,6 +1101,8 @@ class Interp:
                 return self.truth(self.call(l, [v], {}))
             return True
         if isinstance(v, Model):
+            if hasattr(v, 'm_truth_term'):
+                return v.m_truth_term()
             n = v.m_len(self)
             return (n > 0) if isinstance(n, int) else (self.int_term(n) > 0)
         if isinstance(v, (FuncV, ClassV, Native, BoundMethod, EnumMember, ModuleV, Opaque, RangeV, GenV)):
